@@ -277,6 +277,8 @@ class Interp:
                     outcome = ("raise", r.exc)
                 except PathEnd as p:
                     outcome = p.outcome
+                except (BreakSig, ContinueSig):
+                    raise AnalysisError(f"{qualname}: break / continue outside a loop (the module does not compile)")
             except RecursionError:
                 raise AnalysisError(f"interpreter recursion limit in {qualname}")
             results.append(PathResult(list(self.ctx.order), self.ctx.events, outcome, self.state))
